@@ -15,6 +15,9 @@ from ..common import Check, Outcome, Snap, subscribe, subscribe2, bootstrap, int
 rs = bootstrap()
 
 ENCODINGS = ['utf-8', 'utf-16', 'utf-32', 'latin-1']
+# other legal spellings of the same four encodings (codecs.lookup resolves them to the same codec)
+SPELLINGS = {'utf-8': ['utf8', 'UTF-8', 'utf_8', 'U8', 'UTF8'], 'utf-16': ['utf16', 'UTF-16', 'utf_16', 'U16', 'Utf16'],
+             'utf-32': ['utf32', 'UTF-32', 'utf_32', 'U32'], 'latin-1': ['latin1', 'latin_1', 'iso-8859-1', 'L1', 'ISO8859-1', '8859', 'LATIN-1']}
 ALPHA = {
     'ascii': 'ab \x00\n',
     'latin': 'a\xe9\xff\xf1\x80\x00',
@@ -53,7 +56,7 @@ class C17(Check):
     ASSUMPTIONS = ['lone surrogates are not text and are not generated',
                    'stdlib one-shot codecs are the reference for the meaning of the bytes']
     ANCHORS = ['rxsci/data/codec.py']
-    REQUIRED_TAGS = ENCODINGS + ['cut-in-char', 'empties', 'empty-string', 'astral', 'empty-list', 'string>64Ki']
+    REQUIRED_TAGS = ENCODINGS + ['cut-in-char', 'empties', 'empty-string', 'astral', 'empty-list', 'string>64Ki', 'alias-spelling']
 
     _ops = {}
 
@@ -61,6 +64,13 @@ class C17(Check):
         return {'encoding': enc, 'strs': list(strs), 'cuts': list(cuts), 'empties': empties}
 
     def generate(self, rng, tier, shard, nshards):
+        for n, case in enumerate(self._generate(rng, tier, shard, nshards)):
+            if n % 3 == 2:
+                sp = SPELLINGS[case['encoding']]
+                case = dict(case, spelling=sp[(n // 3) % len(sp)])
+            yield case
+
+    def _generate(self, rng, tier, shard, nshards):
         return interleave(self._small(tier, shard, nshards), self._random(rng, tier))
 
     def _small(self, tier, shard, nshards):
@@ -141,9 +151,12 @@ class C17(Check):
 
         # operator objects are built once per encoding and re-subscribed for every case: codec state must
         # belong to the subscription, not to the operator (BOM written once PER STREAM, no bytes carried over)
-        if enc not in self._ops:
-            self._ops[enc] = (rs.data.encode(enc), rs.data.decode(enc))
-        enc_op, dec_op = self._ops[enc]
+        name = case.get('spelling', enc)        # the name handed to rxsci; `enc` (canonical) is what the oracles use
+        if name != enc:
+            out.tags.append('alias-spelling')
+        if name not in self._ops:
+            self._ops[name] = (rs.data.encode(name), rs.data.decode(name))
+        enc_op, dec_op = self._ops[name]
         e = subscribe2(rx.from_(strs).pipe(enc_op), out, 'encode')
         if e.err is not None or not e.done:
             return out.fail('encode-failed', error=repr(e.err), done=e.done)
